@@ -113,7 +113,7 @@ class Interp:
         sub.variant_index = self.variant_index
         outs = []
         for p in sub.run():
-            outs.append((p.ret, p.events, p.end))
+            outs.append((p.ret, [Event("enter", -1, fn.key)] + p.events, p.end))
         return outs or [(TOP, [], "diverge")]
 
     def call_value(self, fv, args):
